@@ -4,7 +4,7 @@
    /repo (gen/Pure.v, gen/Consts.v); the contract routines are the model in theories/Rewards.v. *)
 From Coq Require Import Sorted.
 From ZV Require Import Prelude GoSem Rewards RewardsProofs.
-From ZV.gen Require Import Consts Pure.
+From ZV.gen Require Import Consts Pure PureCursor.
 Open Scope Z_scope.
 
 (* for every uint64 epoch none of the translated emission functions panics (slice index, division) *)
@@ -248,15 +248,15 @@ Proof. exact PointsProofs.reachable_nodes_agree. Qed.
    CanPerformUpdate (vm/embedded/implementation/common.go) as translated by go2coq on every run; the end time of epoch
    LastEpoch+1 (epoch ticker), the frontier momentum and the result of Save are inputs of the translations *)
 Theorem C11_cursor_step_is_the_source : forall g dur now last saved,
-  ZV.gen.Pure.checkAndPerformUpdateEpoch last
-    (ZV.gen.Pure.CanPerformEpochUpdate 0 now (epoch_end g dur (GoSem.wrapS 64 (last + 1)))) saved =
+  ZV.gen.PureCursor.checkAndPerformUpdateEpoch last
+    (ZV.gen.PureCursor.CanPerformEpochUpdate 0 now (epoch_end g dur (GoSem.wrapS 64 (last + 1)))) saved =
   if update_due g dur now last then (saved, GoSem.wrapS 64 (last + 1))
   else (ZV.gen.Pure.Err_constants_ErrEpochUpdateTooRecent, last).
 Proof. exact cursor_step_is_source. Qed.
 Theorem C11_update_loop_is_the_source : forall k g dur now last,
   update_loop (S k) g dur now last =
-  match ZV.gen.Pure.checkAndPerformUpdateEpoch last
-          (ZV.gen.Pure.CanPerformEpochUpdate 0 now (epoch_end g dur (GoSem.wrapS 64 (last + 1)))) 0 with
+  match ZV.gen.PureCursor.checkAndPerformUpdateEpoch last
+          (ZV.gen.PureCursor.CanPerformEpochUpdate 0 now (epoch_end g dur (GoSem.wrapS 64 (last + 1)))) 0 with
   | (0, last') => match update_loop k g dur now last' with
                   | Some (es, l') => Some (last' :: es, l')
                   | None => None
@@ -265,7 +265,7 @@ Theorem C11_update_loop_is_the_source : forall k g dur now last,
   end.
 Proof. exact update_loop_unfold_source. Qed.
 Theorem C11_update_gate_is_the_source : forall h lastu,
-  ZV.gen.Pure.CanPerformUpdate 0 h 0 lastu =
+  ZV.gen.PureCursor.CanPerformUpdate 0 h 0 lastu =
   if GoSem.wrapU 64 (lastu + ZV.gen.Consts.UpdateMinNumMomentums) <=? h then 0 else ZV.gen.Pure.Err_constants_ErrUpdateTooRecent.
 Proof. exact update_gate_is_source. Qed.
 
